@@ -19,12 +19,15 @@ RULE = ('every non-boolean term of depth<=2 (quick: leaves f5 + mixed at depth 1
 ASSUMPTIONS = ['numpy reference interpreter is the meaning of a term', 'fixed dyadic valuations; int/bool arguments exhaustive over {0,1}']
 BUDGET_S = {'quick': 300, 'thorough': 4000}
 
+D3_CORE_OPS = ['abs', 'add', 'diagonalize', 'inflate', 'multiply', 'powc', 'sum', 'take', 'takediag', 'transpose']
 PROFILES = {
     'quick': [{'name': 'd2-f5', 'leaves': 'f5', 'consts': False, 'ops': 'all', 'depth': 2},
               {'name': 'd1-mixed', 'leaves': 'mixed', 'consts': True, 'ops': 'all', 'depth': 1}],
-    'thorough': [{'name': 'd2-all', 'leaves': 'all', 'consts': True, 'ops': 'all', 'depth': 2}],
+    'thorough': [{'name': 'd2-all', 'leaves': 'all', 'consts': True, 'ops': 'all', 'depth': 2},
+                 # depth 3 over the structural heart of the rewrite core (the family C01 completes in its quick tier): leaves a (2,), A (2,2)
+                 {'name': 'd3-core', 'leaves': 'aA', 'consts': False, 'ops': D3_CORE_OPS, 'depth': 3, 'binary': True}],
 }
-NPARTS = {'quick': {1: 2, 2: 40}, 'thorough': {1: 4, 2: 300}}
+NPARTS = {'quick': {1: 2, 2: 40}, 'thorough': {1: 4, 2: 300, 3: 300}}
 LOOP_CHUNK = 100
 
 
